@@ -437,7 +437,7 @@ func rule105(r *core.Run) {
 		return
 	}
 	s := r.P.SliceOf(wr.Call.Args[0], core.SliceOpts{Depth: -1})
-	clean := s.HasValue(op) && !s.HasPrefix("call:strings.") && !s.HasPrefix("op:") && !s.HasPrefix("slice-expr")
+	clean := s.HasValue(op) && !s.HasPrefix("call:") && !s.HasPrefix("via:") && !s.HasPrefix("op:") && !s.HasPrefix("slice-expr")
 	r.Check(clean, "R10.5", key(fname(r, fn), "hash input is the unmodified key"), pos(r, wr), "hash over []byte(object)", "the hash input is a transformed key: distinct keys can share a metadata file")
 	// result: object part contains Sum of that hasher, bucket part is the bucket param
 	var rets []ssa.Value
@@ -470,6 +470,21 @@ func rule105(r *core.Run) {
 			}
 		case "strings.Map":
 			flat += 2 // a character mapping; its function is covered by the provenance check above
+		case "(*strings.Replacer).Replace":
+			// a replacer kept in a package-level variable: look at how it was built
+			if ld, ok := c.Call.Args[0].(*ssa.UnOp); ok {
+				if g, ok := ld.X.(*ssa.Global); ok {
+					for _, st := range r.P.GlobalStores(g) {
+						as := r.P.SliceOf(st.Val, core.SliceOpts{Depth: -1})
+						if as.Has("const:/") {
+							flat++
+						}
+						if as.Has("const:\\") {
+							flat++
+						}
+					}
+				}
+			}
 		}
 	})
 	r.Check(flat >= 2, "R10.5", key(fname(r, fn), "separators flattened"), r.P.Pos(fn.Pos()), "'/' and '\\' replaced in the readable part", "path separators of the key are no longer flattened in the metadata file name: a key can address another key's metadata directory")
